@@ -46,7 +46,8 @@ ASSUMPTIONS = [
     'by more than 3 levels within +-1 px; for TRANSPARENT=TRUE + JPEG the pixels that are not opaque in the reference',
     'a request that renders exactly one layer image with opacity < 1 may show it faded against the background or unchanged '
     '(doc: opacity "only effects when multiple layers are merged")',
-    'a colour declared as transparent_color is not legitimate content of an upper layer of a combinable pair',
+    'a source declared `transparent: false` that can be merged with its lower neighbour into one upstream request has '
+    'no empty areas (a WMS answers TRANSPARENT=FALSE&LAYERS=a,b with b drawn over a, not with b flattened on white)',
 ]
 
 SRS = 'EPSG:3857'
@@ -61,6 +62,9 @@ SIG_BLEND = 'C14/merge/opaque-result/blend-ignores-layer-alpha'
 SIG_OPZERO = 'C14/prune/opacity-zero-counts-as-opaque'
 SIG_COMBRANGE = 'C14/combined/source-outside-res-range-requested'
 SIG_COMBCLIP = 'C14/combined/clip-flag-of-other-source-lost'
+SIG_COMBKEY = 'C14/combined/transparent_color-keyed-after-server-side-merge'
+SIG_BBOXCLIP = 'C14/clip/bbox-coverage/internal-error'
+SIG_GROUPRANGE = 'C14/group/child-layer-res-range-ignored'
 
 
 # ------------------------------------------------------------------------------------------------
@@ -404,9 +408,8 @@ def build_conf(case, base_dir):
                 d['coverage'] = {'bbox': list(c['bbox']), 'srs': SRS}
             else:
                 path = os.path.join(base_dir, 'cov%d.wkt' % s['cov'][0])
-                if not os.path.exists(path):
-                    with open(path, 'w') as f:
-                        f.write(cov_geom(c).wkt + '\n')
+                with open(path, 'w') as f:
+                    f.write(cov_geom(c).wkt + '\n')
                 d['coverage'] = {'datasource': path, 'srs': SRS}
             if s['cov'][1]:
                 d['coverage']['clip'] = True
@@ -478,13 +481,14 @@ def request_bbox(case, rq):
 
 
 def expand_layers(case, names):
+    """-> [(layer index, requested through the group layer)]"""
     out = []
     for n in names:
         if n == 'G':
             g = case['group']
-            out.extend(range(g[0], g[1] + 1))
+            out.extend((i, True) for i in range(g[0], g[1] + 1))
         else:
-            out.append(int(n[1:]))
+            out.append((int(n[1:]), False))
     return out
 
 
@@ -501,7 +505,7 @@ def prepare_entries(case, rq, bbox):
     X, Y = centres(bbox, size)
     qbox = box(*bbox)
     entries = []
-    for li in expand_layers(case, rq['layers']):
+    for li, via_group in expand_layers(case, rq['layers']):
         lay = case['layers'][li]
         lay_ok = in_range(lay['range'], res)
         hull = lay['range'] if lay['range'] is not None else hull_range([case['sources'][i]['range'] for i in lay['sources']])
@@ -511,7 +515,11 @@ def prepare_entries(case, rq, bbox):
             e.si, e.li, e.s = si, li, s
             e.name = 'f%d' % si
             e.visible = lay_ok and in_range(s['range'], res)
-            e.layer_renders = in_range(hull, res) and lay_ok
+            e.via_group = via_group
+            e.layer_in_range = lay_ok
+            # may MapProxy hand this source to the renderer?  (only used to recognise constructs of open findings;
+            # over-approximated for children of a requested group)
+            e.layer_renders = via_group or (in_range(hull, res) and lay_ok)
             e.opacity = 1.0 if s['opacity'] is None else float(s['opacity'])
             e.dontcare = np.zeros(X.shape, bool)
             e.var = np.zeros(X.shape)
@@ -662,6 +670,35 @@ def entry_opaque_decl(e):
     return (e.visible and not s['transparent'] and s['tc'] is None and (s['cov'] is None or e.contains_query))
 
 
+def reduce_case(case, rq):
+    """the replayable case of one request: only the layers/sources the request touches, renumbered"""
+    used = sorted(set(li for li, _ in expand_layers(case, rq['layers'])))
+    lmap = dict((li, k) for k, li in enumerate(used))
+    smap = {}
+    layers = []
+    sources_ = []
+    for li in used:
+        lay = case['layers'][li]
+        idx = []
+        for si in lay['sources']:
+            smap[si] = len(sources_)
+            sources_.append(case['sources'][si])
+            idx.append(smap[si])
+        layers.append({'sources': idx, 'range': lay['range']})
+    group = None
+    names = []
+    for n in rq['layers']:
+        if n == 'G':
+            g = case['group']
+            group = [lmap[g[0]], lmap[g[1]]]
+            names.append('G')
+        else:
+            names.append('L%d' % lmap[int(n[1:])])
+    rq2 = dict(rq)
+    rq2['layers'] = names
+    return {'covs': case['covs'], 'sources': sources_, 'layers': layers, 'group': group, 'requests': [rq2]}
+
+
 def check_request(case, rq, app, up, st_, open_sigs, ri):
     bbox = request_bbox(case, rq)
     size = tuple(rq['size'])
@@ -671,8 +708,7 @@ def check_request(case, rq, app, up, st_, open_sigs, ri):
     shape = X.shape
     fmt = rq['format']
     transparent_result = bool(rq['transparent']) and fmt == 'png'
-    vcase = dict(case)
-    vcase['requests'] = [rq]
+    vcase = reduce_case(case, rq)
 
     # ---- constructs of OPEN findings are excluded by construction (counted) ----------------------
     rendering = [e for e in entries if e.layer_renders]
@@ -691,8 +727,20 @@ def check_request(case, rq, app, up, st_, open_sigs, ri):
     combrange_construct = any((not a.visible) or (not b.visible) for a, b in comb_pairs)
     combclip_construct = any(a.visible and b.visible and a.s['cov'] is not None and a.s['cov'][1] != b.s['cov'][1]
                              for a, b in comb_pairs)
+    combkey_construct = any(a.visible and b.visible and a.s['tc'] is not None for a, b in comb_pairs)
+    bboxclip_construct = any(e.visible and e.maybe and e.s['cov'] is not None and e.s['cov'][1]
+                             and case['covs'][e.s['cov'][0]]['kind'] == 'bbox' for e in entries)
+    grouprange_construct = any(e.via_group and not e.layer_in_range for e in entries)
+    # precondition (see ASSUMPTIONS): a source declared `transparent: false` that is the upper member of a combinable
+    # pair has no empty areas - otherwise "the individual layer image" (flattened on white by the server) and the
+    # server-side composite legitimately differ
+    if any(a.visible and b.visible and not b.s['transparent'] and b.s['field']['alpha'][0] != 'opaque' for a, b in comb_pairs):
+        st_.excluded['precondition: non-transparent source with empty areas above a combinable neighbour'] += 1
+        return None
     for construct, s_ in ((has_blend_construct, SIG_BLEND), (opzero_construct, SIG_OPZERO),
-                          (combrange_construct, SIG_COMBRANGE), (combclip_construct, SIG_COMBCLIP)):
+                          (combrange_construct, SIG_COMBRANGE), (combclip_construct, SIG_COMBCLIP),
+                          (combkey_construct, SIG_COMBKEY), (bboxclip_construct, SIG_BBOXCLIP),
+                          (grouprange_construct, SIG_GROUPRANGE)):
         if construct and s_ in open_sigs:
             st_.excluded['open-finding:' + s_] += 1
             return None
@@ -706,6 +754,9 @@ def check_request(case, rq, app, up, st_, open_sigs, ri):
     resp = app.get(url, expect_errors=True)
     ctype = resp.headers.get('Content-type', '')
     if resp.status_int != 200 or not ctype.startswith('image/'):
+        if resp.status_int == 500 and bboxclip_construct:
+            return core.Violation(SIG_BBOXCLIP, 'GetMap on a source with `coverage: {bbox: ..., clip: true}` -> %s (mask_polygons: '
+                                  'BBOXCoverage has no geom): %s' % (resp.status, url), vcase)
         return core.Violation(sig('error-response'), 'GetMap %s -> %s %s %r' % (url, resp.status, ctype, resp.body[:200]), vcase)
     img = ground.decode_image(resp.body)
     if img.size != size:
@@ -812,6 +863,10 @@ def check_request(case, rq, app, up, st_, open_sigs, ri):
     where = 'pixel (%d,%d) got %r expected %r (tolerance %.1f); %d of %d judged pixels differ; upstream calls %r' % (
         px, py, [int(v) for v in got[py, px]], [round(float(v), 1) for v in exp_cmp[py, px]], float(tol[py, px]),
         int(bad.sum()), int(judged.sum()), calls)
+    for e in entries:
+        if e.via_group and not e.layer_in_range and e.name in requested:
+            return core.Violation(SIG_GROUPRANGE, 'LAYERS=G: child layer L%d is outside its min_res/max_res at resolution %g but its '
+                                  'source %s was requested and rendered: %s' % (e.li, res, e.name, where), vcase)
     for c in calls:
         if len(c) >= 2:
             es = [e for e in entries if e.name in c]
@@ -825,7 +880,14 @@ def check_request(case, rq, app, up, st_, open_sigs, ri):
             if len(clips) == 2:
                 return core.Violation(SIG_COMBCLIP, 'combined upstream request LAYERS=%s mixes sources with clip: true and clip: false '
                                       'on the same coverage; only the first source\'s flag is applied: %s' % (','.join(c), where), vcase)
-    if not transparent_result and not (fmt == 'jpeg' and rq['transparent']):
+    for c in calls:
+        if len(c) >= 2:
+            es = [e for e in entries if e.name in c]
+            if any(e.s['tc'] is not None for e in es):
+                return core.Violation(SIG_COMBKEY, 'sources with transparent_color were merged into one upstream request LAYERS=%s; the '
+                                      'colour key is applied to the server-side composite, so the key-coloured (background) pixels of the upper '
+                                      'layer hide the lower layer instead of showing it: %s' % (','.join(c), where), vcase)
+    if not rq['transparent']:
         cand = np.zeros(shape, bool)
         for e in vis:
             if 0.0 < e.opacity < 1.0:
@@ -873,10 +935,16 @@ def _open_signatures():
     return _OPEN['v']
 
 
+_SCRATCH = {}
+
+
 def check_case(case, st_, collect=None):
     # replay (collect given) never excludes anything: regression cases demonstrate the open findings
     open_sigs = _open_signatures() if collect is None else set()
-    base = tempfile.mkdtemp(prefix='c14_')
+    # one scratch directory per process (creating/removing a directory per case dominated the run time); it only
+    # ever holds mapproxy.yaml and the coverage files of the current case and is removed by its owner
+    own = 'dir' not in _SCRATCH
+    base = tempfile.mkdtemp(prefix='c14_') if own else _SCRATCH['dir']
     try:
         from webtest import TestApp
         conf = build_conf(case, base)
@@ -892,18 +960,23 @@ def check_case(case, st_, collect=None):
                 if v is not None:
                     if collect is not None:
                         collect.append(v)
-                    elif first is None:
+                    else:
                         first = v
                         break
         return first
     finally:
-        shutil.rmtree(base, ignore_errors=True)
+        if own:
+            shutil.rmtree(base, ignore_errors=True)
 
 
 def random_shard(shard, nshards, seed, tier):
     st_ = core.Stats()
-    n = (3600 if tier == 'quick' else 60000) // nshards
-    core.hyp_search(cases(), check_case, st_, max_examples=n, seed=seed)
+    n = (9600 if tier == 'quick' else 160000) // nshards
+    _SCRATCH['dir'] = tempfile.mkdtemp(prefix='c14_')
+    try:
+        core.hyp_search(cases(), check_case, st_, max_examples=n, seed=seed, shrink=False)
+    finally:
+        shutil.rmtree(_SCRATCH.pop('dir'), ignore_errors=True)
     return st_
 
 
